@@ -534,14 +534,9 @@ func c14Slots(tops ...*fakecluster.Topo) []int {
 	return out
 }
 
-func c14Exec(c *c14Case) ([]Discrepancy, []string) {
-	var trace []string
-	cl, err := fakecluster.New(c14Nodes)
-	if err != nil {
-		harnessProblem("cannot build the fake cluster: %v", err)
-	}
-	defer cl.Close()
-	// initial topology on nodes 0..k-1
+// c14InitialModel builds the model of the generated initial topology on nodes 0..k-1 of cl; it returns the
+// number of nodes in use.
+func c14InitialModel(cl *fakecluster.Cluster, c *c14Case) (*c14Model, int) {
 	ts := c.Init
 	topo := &fakecluster.Topo{AddrForm: ts.AddrForm, Rotate: ts.Rotate, Reverse: ts.Reverse}
 	mN := len(ts.Reps)
@@ -561,7 +556,21 @@ func c14Exec(c *c14Case) ([]Discrepancy, []string) {
 			idx++
 		}
 	}
-	m := &c14Model{cl: cl, topo: topo, infoBad: map[int]string{}, known: map[int]int{}}
+	return &c14Model{cl: cl, topo: topo, infoBad: map[int]string{}, known: map[int]int{}}, idx
+}
+
+// c14ParseHook is the in-process refresh-step executor (c14_parse_test.go, build tag verif).
+var c14ParseHook func(c *c14Case) ([]Discrepancy, []string)
+
+func c14Exec(c *c14Case) ([]Discrepancy, []string) {
+	var trace []string
+	cl, err := fakecluster.New(c14Nodes)
+	if err != nil {
+		harnessProblem("cannot build the fake cluster: %v", err)
+	}
+	defer cl.Close()
+	m, idx := c14InitialModel(cl, c)
+	topo := m.topo
 	m.syncInfo()
 	var f *Fixture
 	for attempt := 0; attempt < 3; attempt++ {
@@ -747,6 +756,20 @@ func c14Classify(c *c14Case) (bool, []string) {
 
 func init() {
 	registerReplay("C14", func(raw json.RawMessage) ([]Discrepancy, error) {
+		var pc struct {
+			Level string  `json:"level"`
+			Case  c14Case `json:"case"`
+		}
+		if err := json.Unmarshal(raw, &pc); err == nil && pc.Level != "" {
+			if c14ParseHook == nil {
+				harnessProblem("this case replays the refresh step in-process: build the harness with -tags verif")
+			}
+			ds, tr := c14ParseHook(&pc.Case)
+			for _, l := range tr {
+				fmt.Println("   ", l)
+			}
+			return ds, nil
+		}
 		var c c14Case
 		if err := json.Unmarshal(raw, &c); err != nil {
 			return nil, err
